@@ -38,6 +38,7 @@ type Case struct {
 	nontrivial bool
 	known      map[string]string
 	written    bool
+	fixed      bool // a hand-written deterministic regression case (no draws)
 	Header     map[string]any
 }
 
@@ -203,6 +204,20 @@ func (c *Case) Fatalf(format string, a ...any) {
 	panic("unreachable")
 }
 
+// Harnessf aborts the case because the harness (not the code under test)
+// failed: the driver reports "could not decide", never a violation.
+func (c *Case) Harnessf(format string, a ...any) {
+	msg := "VERIF-HARNESS-ERROR " + fmt.Sprintf(format, a...)
+	c.written = true
+	fmt.Println(msg)
+	if c.rt != nil {
+		c.rt.Fatalf("%s", msg)
+	} else {
+		c.tt.Fatalf("%s", msg)
+	}
+	panic("unreachable")
+}
+
 // Logf logs through the test.
 func (c *Case) Logf(format string, a ...any) {
 	if c.rt != nil {
@@ -225,7 +240,7 @@ type ReplayFile struct {
 
 func (c *Case) writeReplay(msg string) {
 	c.written = true
-	if c.Replaying() {
+	if c.Replaying() && !c.fixed {
 		return
 	}
 	out := os.Getenv("VERIF_REPLAY_OUT")
@@ -459,6 +474,14 @@ func replayFile(t *testing.T, property, test, path string, prop func(c *Case), b
 				return
 			}
 			if d, ok := r.(replayDiverged); ok {
+				if os.Getenv("VERIF_REPLAY") == "" {
+					// a saved regression whose draw log no longer matches the generator
+					fmt.Printf("VERIF-STALE-REGRESSION %s: %s\n", path, string(d))
+					statsMu.Lock()
+					getStats(property, test).Classes["stale-regression-file"]++
+					statsMu.Unlock()
+					return
+				}
 				tt.Fatalf("VERIF-HARNESS-ERROR replay diverged (%s): %s", path, string(d))
 			}
 			tt.Fatalf("VERIF-FAIL %s: panic: %v\n%s", property, r, debug.Stack())
@@ -516,4 +539,36 @@ func KnownListed(property, id string) bool {
 		}
 	}
 	return false
+}
+
+// Fixed runs one hand-written deterministic case (a regression scenario of a
+// repaired defect). It is counted like a generated case; a failure is reported
+// like any other violation and the file it writes replays this same test.
+func Fixed(t *testing.T, property string, bubble bool, prop func(c *Case)) {
+	test := t.Name()
+	statsMu.Lock()
+	getStats(property, test)
+	statsMu.Unlock()
+	body := func(tt *testing.T) {
+		c := newCase(property, test)
+		c.tt, c.fixed = tt, true
+		c.NonTrivial()
+		c.Class("fixed-regression-case")
+		defer func() {
+			if r := recover(); r != nil {
+				if !c.written {
+					c.writeReplay(fmt.Sprintf("panic: %v\n%s", r, debug.Stack()))
+				}
+				c.commit()
+				tt.Fatalf("VERIF-FAIL %s: panic: %v\n%s", property, r, debug.Stack())
+			}
+			c.commit()
+		}()
+		prop(c)
+	}
+	if bubble {
+		synctest.Test(t, body)
+	} else {
+		body(t)
+	}
 }
